@@ -97,6 +97,11 @@ Section WithDigest.
     induction os as [|o' os IH]; intros w I; simpl; auto. apply IH. now apply inv_check.
   Qed.
 
+  Lemma inv_pre_fold items : forall w, Inv w -> Inv (fold_left (pre_step H) items w).
+  Proof.
+    induction items as [|i items IH]; intros w I; simpl; auto. apply IH. now apply inv_check.
+  Qed.
+
   (* steps that leave the objects alone keep trusted_ok *)
   Lemma trusted_same_objs w w' o : w_objs w' = w_objs w -> w_cls w' = w_cls w -> w_alg w' = w_alg w ->
     trusted_ok w o -> trusted_ok w' o.
@@ -104,8 +109,10 @@ Section WithDigest.
 
   Lemma step_inv w p : Inv w -> tick_ok w p -> Inv (fst (step H w p)).
   Proof.
-    intros I Tk. destruct p as [v items|o'|os|o'|d ents|o' b m t|o'|o'|o' alg v|]; simpl in *.
+    intros I Tk. destruct p as [v items|v items|o'|os|o'|d ents|o' b m t|o'|o'|o' alg v|]; simpl in *.
     - now apply add_inv.
+    - unfold add_ro. destruct (match v with Some b => b | None => w_verify w end); auto.
+      now apply inv_pre_fold.
     - now apply inv_check.
     - unfold oids_exist. destruct (w_cls w); simpl; auto. now apply inv_exist_fold.
     - unfold checkout. destruct (lookup o' (w_objs (snd (check w o')))); simpl; now apply inv_check.
